@@ -484,6 +484,18 @@ def c16_case(rec, hub, rng, tier, which):
         live = make_stock(fd, cfg, cls_name, lm=build_lm(fd, cfg), inflow=x)
         with quiet():
             live.compute()
+        if rng.random() < 0.5:
+            # homogeneity at zero on an object that has been computed before: f(0) = 0 for every result, the cohort tables included
+            live.inflow.values[...] = 0.0
+            with quiet():
+                live.compute()
+            R0 = S.results_of(live)
+            rec.event(M16, sig=f"reused-object-zero|{base}", cls=f"reused-object|zero-driver|{cfg['gclass']}")
+            for q, v in R0.items():
+                if np.any(v != 0):
+                    rec.violation(M16, "zero-driver-on-a-used-object-leaves-non-zero-results:InflowDrivenDSM", dict(quantity=q, model=cfg["model"], max_abs=float(np.max(np.abs(v)))))
+                    break
+            live.inflow.values[...] = x
         new_truth = {k: np.array(v) * (1.3 if k in ("mean", "weibull_scale") else 1.0) for k, v in cfg["truth"].items()}
         with quiet():
             live.lifetime_model.set_prms(**{k: np.array(v) for k, v in new_truth.items()})
@@ -712,6 +724,80 @@ def two_objects_case(rec, hub, rng, tier, monitor, prop):
                     if not ok:
                         rec.violation(monitor, f"stock-differs-from-the-same-stock-alone-while-another-stock-of-its-shape-is-alive:{cn}", dict(quantity=q, rel_diff=rel, model=cfg["model"], lifetime_model_given_as="class" if by_class else "instance", steps=[f"{a}:{b}" for a, b in steps]), prop=prop)
                         return
+
+
+def c17_user_model_case(rec, hub, rng, tier):
+    """A lifetime model written by the user: a subclass of a shipped model with one more parameter (a delay before anything can
+    leave), set the natural way (base parameters through super().set_prms, then its own).  Re-parameterised and recomputed stocks
+    must equal fresh ones - also when ONLY the user's own parameter changed."""
+    fd = hub.fd
+    from typing import Any
+
+    base_name = ["NormalLifetime", "WeibullLifetime", "LogNormalLifetime", "FoldedNormalLifetime", "FixedLifetime"][int(rng.integers(0, 5))]
+    base_cls = getattr(fd, base_name)
+    names = S.SURVIVAL[base_name][0]
+
+    class Delayed(base_cls):
+        delay: Any = None
+
+        @property
+        def prms(self):
+            return {**super().prms, "delay": self.delay}
+
+        def set_prms(self, delay, **kw):
+            super().set_prms(**kw)
+            self.delay = self.cast_any_to_np_array(delay)
+
+        def _survival_by_year_id(self, t, m):
+            return super()._survival_by_year_id(np.maximum(t - self.delay[m, ...], 0.0), m)
+
+    items, gclass = time_grid(rng, tier, None)
+    items = items[:10]
+    tdim = fd.Dimension(letter="t", name="time", items=list(items))
+    rdim = fd.Dimension(letter="r", name="region", items=["EUR", "USA"], dtype=str)
+    dims = fd.DimensionSet(dim_list=[tdim, rdim] if rng.random() < 0.6 else [tdim])
+    span = float(items[-1] - items[0])
+
+    def draw():
+        mean = float(rng.uniform(0.2, 0.6) * span + 1.0)
+        p = {"mean": mean, "std": mean * float(rng.uniform(0.2, 0.5)), "weibull_shape": float(rng.uniform(1.2, 3.0)), "weibull_scale": mean}
+        return {k: p[k] for k in names}
+
+    def build(prms, delay, inflow):
+        lm = Delayed(dims=dims, time_letter="t")
+        lm.set_prms(delay=delay, **prms)
+        st = fd.InflowDrivenDSM(dims=dims, lifetime_model=lm, time_letter="t", inflow=fd.StockArray(dims=dims, values=np.array(inflow)))
+        st.compute()
+        return st
+
+    inflow = rng.uniform(1.0, 50.0, size=dims.shape)
+    prms, delay = draw(), 0.0
+    try:
+        with quiet():
+            live = build(prms, delay, inflow)
+    except Exception as e:
+        rec.skip(M17, f"user-written lifetime model could not be built: {type(e).__name__}")
+        return
+    for step in range(int(rng.integers(2, 5))):
+        what = str(rng.choice(["delay-only", "all", "base-only"]))
+        if what in ("delay-only", "all"):
+            delay = float(rng.uniform(0.0, 0.4) * span)
+        if what in ("base-only", "all"):
+            prms = draw()
+        with quiet():
+            live.lifetime_model.set_prms(delay=delay, **prms)
+            if rng.random() < 0.3:
+                live.lifetime_model.sf
+            live.compute()
+            with hub.pause():
+                fresh = build(prms, delay, inflow)
+                A, B = S.results_of(live), S.results_of(fresh)
+        rec.event(M17, sig=f"user-model|{base_name}|{what}|{gclass}", cls=f"user-written-lifetime-model|{base_name}|changed={what}")
+        for q in A:
+            ok, rel = allclose_scaled(A[q], B[q], 1e-12)
+            if not ok:
+                rec.violation(M17, f"recomputed-result-differs-from-fresh-object:user-written-lifetime-model:{what}", dict(quantity=q, base_model=base_name, changed=what, rel_diff=rel, time_items=items))
+                return
 
 
 def _last_change(hist):
